@@ -251,6 +251,7 @@ def runProgram (d : DState) (src : Str) (args : List String) : String × DState 
   let mode := gcModeOf ((kv args "gc").getD "native")
   let wantFs := (kv args "fs").isSome
   let wantHeap := (kv args "heap").isSome
+  let wantSpec := (kv args "spec").isSome
   match tokenize src ctx.mainPath with
   | .ok toks =>
     match parse ctx 1000000 toks with
@@ -259,13 +260,24 @@ def runProgram (d : DState) (src : Str) (args : List String) : String × DState 
       let anc := (World.prefixes d.root).filter (fun q => !d.fs.any (·.path == q))
       let fs0 := d.fs ++ anc.map (fun q => { path := q, isDir := true, content := none, nameOk := true })
       let w : World := { fs := fs0, stdin := stdin, platform := W.wLinux }
+      -- `spec=1`: is the program the flattening of a tree (`unflatten`), and what is the tree's structured meaning?
+      let spec := if !wantSpec then "" else
+        match unflatten prog with
+        | none => " struct=no"
+        | some (tree, em) =>
+          match sTop prog fuel tree em (St.init w) with
+          | .ok s => s!" struct=yes specout={outHex s.out} specstatus=ok"
+          | .err e => s!" struct=yes specout={outHex e.out} specstatus=" ++ statusOf (Res.err e : Res Unit) true
+          | r => " struct=yes specout=- specstatus=" ++ statusOf r false
+      let wfTag := if wantSpec then (if progWF prog then " wf=yes" else " wf=no") else ""
+      let spec := spec ++ wfTag
       match runLoop prog mode fuel 0 prog (St.init w) with
       | .ok s =>
         let extra := (if wantFs then " fs=" ++ fsListing d.root s.world.fs else "") ++
           (if wantHeap then s!" nlists={s.heap.lists.length} nfreeL={s.heap.freeLists.length} nrecords={s.heap.records.length} nfreeR={s.heap.freeRecords.length} colls={s.gcCount}" else "")
-        (s!"out={outHex s.out} status=ok" ++ extra, { d with fs := s.world.fs.filter (fun e => World.isUnder d.root e.path) })
-      | .err e => (s!"out={outHex e.out} status=" ++ statusOf (Res.err e : Res Unit) true, d)
-      | r => ("out=- status=" ++ statusOf r false, d)
+        (s!"out={outHex s.out} status=ok" ++ extra ++ spec, { d with fs := s.world.fs.filter (fun e => World.isUnder d.root e.path) })
+      | .err e => (s!"out={outHex e.out} status=" ++ statusOf (Res.err e : Res Unit) true ++ spec, d)
+      | r => ("out=- status=" ++ statusOf r false ++ spec, d)
     | r => ("out=- status=" ++ statusOf r false, d)
   | r => ("out=- status=" ++ statusOf r false, d)
 
